@@ -248,7 +248,8 @@ func TestC20NamingS3(t *testing.T) {
 		if !bytes.Equal(got, body) {
 			t.Fatalf("S3 backend round trip differs")
 		}
-		tuple := fmt.Sprintf("%s|%s|%s|%s", kind, hash, mode, prefix)
+		// (spellings of one prefix - "team-cache" and "team-cache/" - are one prefix)
+		tuple := fmt.Sprintf("%s|%s|%s|%s", kind, hash, mode, strings.Trim(path.Clean("/"+prefix), "/"))
 		k := mode + "|" + want
 		if prev, ok := seen[k]; ok && prev != tuple {
 			t.Fatalf("S3 object name %s is shared by %s and %s", want, prev, tuple)
